@@ -175,8 +175,23 @@ func (ms *MessageStreamer) Go(ctx context.Context, conn StreamConnection) error 
 				mu.Unlock()
 			}
 			if len(msg.Delay) != 0 {
+				isNack := msg.DelaySeconds <= 0
+				if isNack {
+					// a zero deadline is a nack: the client is done with these
+					// deliveries, so they no longer count against its flow control.
+					// forget them before they become redeliverable, otherwise a
+					// redelivery that overtakes us would be forgotten instead
+					mu.Lock()
+					for _, id := range msg.Delay {
+						delete(pending, id)
+					}
+					mu.Unlock()
+				}
 				if err := ms.doDelay(ctx, msg.Delay, time.Duration(msg.DelaySeconds*float64(time.Second))); err != nil {
 					return err
+				}
+				if isNack {
+					tryWake()
 				}
 			}
 		}
